@@ -191,3 +191,13 @@ def descriptor_of(resources):
 
 def tables_of(resources):
     return [r['rows'] for r in resources]
+
+
+def rare(draw, per_mille):
+    """True in about per_mille/1000 of the generated cases.  Hypothesis' integers / sampled_from / one_of are
+    heavily skewed towards their first and boundary values, which makes 'rare' classes common; a 64-bit draw
+    passed through a hash gives the intended proportion (and stays a pure function of the drawn data)."""
+    import hashlib
+    x = draw(st.integers(0, 2 ** 64 - 1))
+    h = int.from_bytes(hashlib.blake2b(x.to_bytes(8, 'big'), digest_size=8).digest(), 'big')
+    return h % 1000 < per_mille
